@@ -351,3 +351,26 @@ Print Assumptions c04_code_sized_write.
 Print Assumptions c04_code_direct_equiv.
 Print Assumptions c04_code_left_to_send.
 Print Assumptions c04_code_nonvacuous.
+
+(** One level up: [Call<WithBody>::write] in its body phase (the two refusing guards, then the writer) and
+    [Call<WithBody>::consume_direct_write] of src/client/call.rs, translated on every run ([gen_call_write_body],
+    [gen_call_direct_write]; request analysis and prelude writing are abstracted into a flag and a result parameter,
+    [self.state.writer] is flattened into its fields), correspond to the model's [call_write_body] (after analysis) and
+    [call_direct_write] (proofs/Gen2_equiv_call2.v): same refusal, same writer afterwards, same counts, same bytes. *)
+From Hoot.proofs Require Import Gen2_equiv_call2.
+Theorem c04_code_call_write : forall c1 input cap,
+  is_prelude (c_phase c1) = false ->
+  sized_fits (w_mode (c_writer c1)) cap input ->
+  cwb_rel cap
+    (gen_call_write_body (w_mode (c_writer c1)) (w_ended (c_writer c1)) false (is_body (c_phase c1)) (Ok tt) input cap [])
+    (call_write_after_analysis c1 input cap).
+Proof. exact gen_call_write_body_equiv. Qed.
+Theorem c04_code_call_write_unfold : forall c input cap,
+  call_write_body c input cap = do c1 <- analyze_request c; call_write_after_analysis c1 input cap.
+Proof. exact call_write_body_unfold. Qed.
+Theorem c04_code_call_direct : forall c amount,
+  cdw_rel (gen_call_direct_write (w_mode (c_writer c)) (w_ended (c_writer c)) amount) (call_direct_write c amount).
+Proof. exact gen_call_direct_write_equiv. Qed.
+Print Assumptions c04_code_call_write.
+Print Assumptions c04_code_call_write_unfold.
+Print Assumptions c04_code_call_direct.
